@@ -705,7 +705,6 @@ def run(tier, seed):
     quick = tier == "quick"
     agg, stats = Agg(), Counter()
     nontriv = set()
-    t0 = time.time()
     g, consts = generate(tier)
     hdr = [r for r in g.json_lines if r["kind"] == "hdr"]
     rows = {k: [r for r in g.json_lines if r["kind"] == k] for k in ("s2", "om", "mat")}
@@ -737,9 +736,6 @@ def run(tier, seed):
     stats["replay_deferred_to_trace"] = len(deferred)
     stats["calls_skipped_after_timeouts"] = sum(1 for e in events if e["exc"] == "Skipped")
     events = [e for e in events if e["exc"] != "Skipped"]
-    for e in events:
-        if e["op"] in ("om.mul", "s2.mul", "dy.matmul", "om.law", "s2.law", "dy.law", "so3.hom", "nt.dioph") and e["exc"] == "":
-            nontriv.add((e["op"], e["law"], tuple(e["x"]), tuple(e["y"]), tuple(e["z"])))
     traces = [{"events": events[i:i + BATCH]} for i in range(0, len(events), BATCH)]
     n_real = len(traces)
     pos, neg = controls(rng)
@@ -765,6 +761,10 @@ def run(tier, seed):
     drift = Counter({k[6:]: v for k, v in stats.items() if k.startswith("drift:")})
     for i in range(n_real):
         fl = fails.get(i, [])
+        rejected = {l for l, kind, _, _ in fl if kind != "D"}
+        for l, e in enumerate(traces[i]["events"]):     # accepted non-degenerate cases
+            if l not in rejected and e["exc"] == "" and e["op"] in ("om.mul", "s2.mul", "dy.matmul", "om.law", "s2.law", "dy.law", "so3.hom", "nt.dioph"):
+                nontriv.add((e["op"], e["law"], tuple(e["x"]), tuple(e["y"]), tuple(e["z"])))
         if verd[i][0] + verd[i][1] != len(fl):
             raise lib.MachineryError("failure lines and verdict disagree")
         for l, kind, clause, info in fl:
